@@ -317,6 +317,9 @@ def _main(chk, args, pool):
             if o['error']:
                 chk.violation(f'resolve:{key}', f"generation failed: {o['error']}", dict(case=c))
                 continue
+            # the order in which the generator walks the methods is not part of the property: declaration order
+            order = {(p['svc'], p['meth']): i for i, p in enumerate(pred)}
+            o['methods'].sort(key=lambda m: order.get((m['svc'], m['meth']), len(order)))
             if o['methods'] != pred:
                 bad = [(p, m) for p, m in zip(pred, o['methods']) if p != m]
                 msg = (f'{len(o["methods"])} Method events for {len(pred)} methods' if len(o['methods']) != len(pred) else
